@@ -102,15 +102,16 @@ func resolveInmemRoles(c *Ctx) *inmemRoles {
 	for _, fn := range r.storage {
 		isStorage[fn] = true
 	}
+	var notifyCands []*ssa.Function
 	for _, fn := range r.svcFns {
 		ir.Instrs(fn, func(in ssa.Instruction) {
 			if p, acq, _ := ir.LockOp(in); acq && strings.HasSuffix(p, "."+r.mutex.Name()) {
 				r.locking[fn] = true
 			}
-			// notify = non-interface method that closes a waiter's channel
+			// notify = non-interface method that closes a waiter's channel (candidates; the choice is made below)
 			if cc := builtinCall(in, "close"); cc != nil && !isStorage[fn] {
 				if _, isDone := loadOfField(cc.Args[0], r.wDone); isDone {
-					r.notify = fn
+					notifyCands = appendUniqFn(notifyCands, fn)
 				}
 			}
 			if lk, ok := in.(*ssa.Lookup); ok && !isStorage[fn] {
@@ -122,6 +123,33 @@ func resolveInmemRoles(c *Ctx) *inmemRoles {
 				}
 			}
 		})
+	}
+	// the notifier wakes everybody unconditionally: it does not keep the waiter count (a helper that withdraws ONE waiter
+	// and closes the channel when it was the last one is not it); among several, the one the storage methods call most
+	{
+		best, bestCalls := (*ssa.Function)(nil), -1
+		for _, cand := range notifyCands {
+			counts := false
+			ir.Instrs(cand, func(in ssa.Instruction) {
+				if _, _, ok := storeToField(in, r.wCount); ok {
+					counts = true
+				}
+			})
+			if counts {
+				continue
+			}
+			n := 0
+			for _, m := range r.svcFns {
+				n += len(callsTo(m, cand))
+			}
+			if n > bestCalls {
+				best, bestCalls = cand, n
+			}
+		}
+		if best == nil && len(notifyCands) > 0 {
+			best = notifyCands[len(notifyCands)-1]
+		}
+		r.notify = best
 	}
 	c.RequireFn(r.notify, "inmem.notify")
 	c.Role("inmem.notify", relName(r.notify), r.notify.Pos())
@@ -535,6 +563,11 @@ func (r *inmemRoles) expiryEdge(from, to *ssa.BasicBlock) expiryKind {
 	if f == nil {
 		return notExpiryEdge
 	}
+	return r.expiryFact(*f)
+}
+
+// expiryFact classifies a branch fact as a step of the expiry decision.
+func (r *inmemRoles) expiryFact(f ir.Fact) expiryKind {
 	ff := f.StripNot()
 	if cm, ok := ff.Cmp(); ok {
 		isExp := func(v ssa.Value) bool { return ir.LoadedField(v) == r.recExpires }
@@ -630,6 +663,10 @@ func (c *Ctx) inmemExpiry(r *inmemRoles, rule string) {
 			}
 			c.NoPath(rule, "table lookup decides expiry before use", in, ir.Query{Fn: fn, From: in,
 				BlockEdge: func(from, to *ssa.BasicBlock) bool { return decision(from, to) || absent(from, to) },
+				BlockFact: func(f ir.Fact) bool {
+					ff := f.StripNot()
+					return r.expiryFact(f) != notExpiryEdge || (ff.Cond == okV && !ff.True)
+				},
 				Block:     func(x ssa.Instruction) bool { return r.recsLookup(x) != nil && x != in },
 				Target:    func(x ssa.Instruction) bool { return ir.IsExit(x) || r.recsUpdate(x) != nil || r.recsDelete(x) != nil }},
 				"a present record influences the result without the expiry decision (ExpiresAt==nil / not before now): an expired key is treated as existing")
@@ -1169,6 +1206,15 @@ func (c *Ctx) inmemNoSharing(r *inmemRoles, rule string) {
 			return false
 		}
 		for _, o := range os {
+			// the zero record shares nothing
+			if ir.IsZeroConst(o) {
+				continue
+			}
+			if u, isLoad := o.(*ssa.UnOp); isLoad && u.Op == token.MUL {
+				if a, isAl := u.X.(*ssa.Alloc); isAl && len(ir.StoresTo(a)) == 0 {
+					continue
+				}
+			}
 			call, ok := o.(*ssa.Call)
 			if !ok {
 				return false
@@ -1406,4 +1452,13 @@ func (c *Ctx) inmemRegistrationBalance(r *inmemRoles, rule string) {
 			"the waiter can go around and register once more while its previous registration still counts (neither decremented nor consumed by a notification): the entry's count is inflated, it never drops to zero when the waiters cancel, and the entry is left behind")
 	}
 	c.R.Floor(rule, 1)
+}
+
+func appendUniqFn(l []*ssa.Function, f *ssa.Function) []*ssa.Function {
+	for _, x := range l {
+		if x == f {
+			return l
+		}
+	}
+	return append(l, f)
 }
